@@ -55,7 +55,7 @@ def prepare(repo, companion_file, package="bitar"):
     return True
 
 
-def run_companion(repo, companion_file, tests, seed=1, cases=None, timeout=900, stride=None, package="bitar"):
+def run_companion(repo, companion_file, tests, seed=1, cases=None, timeout=420, stride=None, package="bitar"):
     """-> dict(status: ok|witness|error, witnesses: [...], cases: int, wall_s, cmd, out_tail)"""
     os.makedirs(WORK, exist_ok=True)
     t0 = time.time()
